@@ -6,7 +6,7 @@ import sys
 
 from .common import Check, R, F, Program, all_results, sum_obligations, root_kind, properties_of, violation_key, strip_lines
 
-QUICK_BUDGET = {"states": 400000, "seconds": 240, "total_seconds": 900}
+QUICK_BUDGET = {"states": 250000, "seconds": 240, "total_seconds": 900}
 
 
 def machine_jobs(tier, roots=None, kinds=("entry", "scanner")):
